@@ -270,7 +270,11 @@ class Interp(ExprMixin):
         return m
 
     LIBC = {"log": s_log, "sqrt": s_sqrt, "cos": s_cos, "exp": s_exp, "fabs": s_fabs,
-            "round": lambda x: trunc(x + Fraction(1, 2)) if not is_sym(x) and x >= 0 else _c_round(x)}
+            "round": lambda x: trunc(x + Fraction(1, 2)) if not is_sym(x) and x >= 0 else _c_round(x),
+            # exact over the reals (NaN arguments are outside the model): fmax / fmin pick an operand, floor / ceil / trunc round
+            "fmax": lambda a, b: _sym.s_max(a, b), "fmin": lambda a, b: _sym.s_min(a, b),
+            "pow": lambda a, b: _sym.sym_pow(a, b),
+            "floor": lambda x: _c_floor(x), "ceil": lambda x: -_c_floor(-x), "trunc": lambda x: trunc(x)}
 
     # ------------------------------------------------------------------ builtins
     def _make_builtins(self):
@@ -1254,6 +1258,17 @@ def _decl_default(d):
             return v
         d = getattr(d, "base", None)
     return None
+
+
+def _c_floor(x):
+    import z3 as _z3
+    if isinstance(x, Sym):
+        return x if x.is_int else Sym(_z3.ToInt(x.z))
+    if isinstance(x, _sym.SymBool):
+        return x._num()
+    if isinstance(x, Fraction):
+        return Fraction(math.floor(x))
+    return float(math.floor(x))          # libm returns a double
 
 
 def _c_round(x):
